@@ -101,6 +101,65 @@ def handle (j : Json) : Except String Json := do
     let N ← decNFA (← j.getObjVal? "N")
     let (q0, _) := genFresh N.Q (← getNat j "counter")
     pure (exc encNFA (N.repetition q0))
+  -- finite languages (C14) and language comparison (C12)
+  | "lang_reverse" => do pure (okJ (encWords (langReverse (← getWords j "L"))))
+  | "lang_no_prefix" => do pure (okJ (encWords (langNoPrefix (← getWords j "L"))))
+  | "lang_no_extend" => do pure (okJ (encWords (langNoExtend (← getWords j "L"))))
+  | "lang_concat" => do pure (okJ (encWords (langConcat (← getWords j "L1") (← getWords j "L2"))))
+  | "lang_union" => do pure (okJ (encWords (langUnion (← getWords j "L1") (← getWords j "L2"))))
+  | "lang_inter" => do pure (okJ (encWords (langInter (← getWords j "L1") (← getWords j "L2"))))
+  | "lang_symdiff" => do pure (okJ (encWords (langSymDiff (← getWords j "L1") (← getWords j "L2"))))
+  | "words_of_length" => do pure (okJ (encWords (wordsOfLength (← getStrList j "Sigma") (← getNat j "n"))))
+  | "words_up_to" => do pure (okJ (encWords (Gamba.wordsUpTo (← getStrList j "Sigma") (← getNat j "n"))))
+  | "compare_languages" => do
+    match compareLanguages (← getWords j "A1") (← getWords j "A2") with
+    | none => pure (okJ Json.null)
+    | some (w, extra) => pure (okJ (Json.arr #[Json.str (String.join w), Json.bool extra]))
+  -- CFG (C02, C07, C08)
+  | "cfg_is_chomsky" => do pure (okJ (Json.bool (← decCFG (← j.getObjVal? "G")).isChomsky))
+  | "cfg_valid" => do pure (okJ (Json.bool (← decCFG (← j.getObjVal? "G")).valid))
+  | "cfg_nullable" => do pure (okJ (encStrs (← decCFG (← j.getObjVal? "G")).nullable))
+  | "cfg_derivable" => do pure (okJ (encStrs ((← decCFG (← j.getObjVal? "G")).derivable (← getStr j "A"))))
+  | "cfg_fresh_variable" => do
+    pure (okJ (Json.str (CFG.freshVariable (← getStrList j "V") (← getStr j "hint"))))
+  | "cfg_add_start" => do pure (okJ (encCFG ((← decCFG (← j.getObjVal? "G")).addStart (← getStr j "hint"))))
+  | "cfg_remove_eps" => do pure (okJ (encCFG (← decCFG (← j.getObjVal? "G")).removeEps))
+  | "cfg_elim_unit" => do pure (okJ (encCFG (← decCFG (← j.getObjVal? "G")).elimUnit))
+  | "cfg_binarise" => do pure (okJ (encCFG (← decCFG (← j.getObjVal? "G")).binarise))
+  | "cfg_isolate" => do pure (okJ (encCFG (← decCFG (← j.getObjVal? "G")).isolateTerminals))
+  | "cfg_to_chomsky" => do pure (okJ (encCFG (← decCFG (← j.getObjVal? "G")).toChomsky))
+  | "cfg_apply_chomsky" => do
+    pure (okJ (encCFG ((← decCFG (← j.getObjVal? "G")).applyChomsky (← getNat j "phase") (← getStr j "start"))))
+  | "cfg_cyk" => do
+    pure (exc encCyk ((← decCFG (← j.getObjVal? "G")).cykMatrix (← getStrList j "w")))
+  | "cfg_accepts" => do
+    pure (exc Json.bool ((← decCFG (← j.getObjVal? "G")).accepts (← getStrList j "w")))
+  | "cfg_words" => do
+    pure (okJ (encWords ((← decCFG (← j.getObjVal? "G")).wordsUpTo (← getNat j "n"))))
+  -- PDA (C02, C09, C10)
+  | "pda_eps_closure" => do
+    let P ← decPDA (← j.getObjVal? "P")
+    let (R, tr) := P.epsClosure (← getNat j "limit") (← getSched j) (← decConfs j "R")
+    pure (okJ (Json.mkObj [("confs", encConfs R), ("truncated", Json.bool tr)]))
+  | "pda_do_transition" => do
+    let P ← decPDA (← j.getObjVal? "P")
+    pure (okJ (encConfs (P.doTransition (← getStr j "a") (← decConfs j "R"))))
+  | "pda_accepts" => do
+    let P ← decPDA (← j.getObjVal? "P")
+    let (b, tr) := P.acceptsT (← getNat j "limit") (← getSched j) (← getStrList j "w")
+    pure (okJ (Json.mkObj [("accepts", Json.bool b), ("truncated", Json.bool tr)]))
+  | "pda_words" => do
+    let P ← decPDA (← j.getObjVal? "P")
+    let (ws, tr) := P.wordsUpTo (← getNat j "limit") (← getSched j) (← getNat j "n")
+    pure (okJ (Json.mkObj [("words", encWords ws), ("truncated", Json.bool tr)]))
+  | "pda_is_push_pop" => do pure (okJ (Json.bool (← decPDA (← j.getObjVal? "P")).isPushPop))
+  | "pda_one_accepting" => do pure (exc encPDA (PDA.checked (← decPDA (← j.getObjVal? "P")).toOneAcceptingS))
+  | "pda_empty_stack" => do
+    let P0 ← decPDA (← j.getObjVal? "P")
+    pure (exc encPDA (do let P ← P0.toAcceptOnEmptyStackS; PDA.checked P))
+  | "pda_push_pop" => do
+    let P0 ← decPDA (← j.getObjVal? "P")
+    pure (exc encPDA (do let P ← P0.toPushPopS; PDA.checked P))
   | _ => throw s!"unknown op {op}"
 
 partial def loop (h : IO.FS.Stream) (out : IO.FS.Stream) : IO Unit := do
